@@ -1048,3 +1048,9 @@ package main
 //@ func (*RuntimeState).postAuthX509CertHandler
 //@   atcall (*net/http.Request).FormFile sets ghostUpload multipart.File (r2 *http.Request, key string, f multipart.File, h *multipart.FileHeader, err error) :: f
 //@   atcall (*bytes.Buffer).ReadFrom requires (b *bytes.Buffer, rd io.Reader) :: rd == io.Reader(ghostUpload)   #C19.the-whole-uploaded-x509-key-is-judged @C19,C10
+
+// ---- C18: the plain-text error bodies (status line plus a message that may echo request text) are never declared to
+// be HTML: the function that writes them sets no Content-Type of its own (the HTML pages it hands over to are
+// rendered by the escaping templates, which declare theirs)
+//@ func (*RuntimeState).writeFailureResponse
+//@   atcall (net/http.Header).Set requires (h http.Header, k string, v string) :: k != "Content-Type" && k != "content-type" && k != "Content-type"   #C18.plain-error-bodies-are-not-declared-html @C18
